@@ -833,6 +833,11 @@ func (c *Conn) advanceFrame() (int, error) {
 			return noFrame, err
 		}
 		c.readRemaining = int64(binary.BigEndian.Uint64(p))
+		if c.readRemaining < 0 {
+			// RFC 6455 section 5.2: the most significant bit of a 64-bit
+			// payload length MUST be 0.
+			return noFrame, c.handleProtocolError("frame length with most significant bit set")
+		}
 	}
 
 	// 4. Handle frame masking.
@@ -855,7 +860,9 @@ func (c *Conn) advanceFrame() (int, error) {
 	if frameType == continuationFrame || frameType == TextMessage || frameType == BinaryMessage {
 
 		c.readLength += c.readRemaining
-		if c.readLimit > 0 && c.readLength > c.readLimit {
+		// A negative readLength means that the sum overflowed int64: the
+		// message is larger than any limit.
+		if c.readLength < 0 || (c.readLimit > 0 && c.readLength > c.readLimit) {
 			c.WriteControl(CloseMessage, FormatCloseMessage(CloseMessageTooBig, ""), time.Now().Add(writeWait))
 			return noFrame, ErrReadLimit
 		}
